@@ -16,7 +16,11 @@ import json, os, re, sys
 
 VERIF = os.path.dirname(os.path.dirname(os.path.abspath(__file__)))
 REPO = os.environ.get("VERIF_REPO", "/repo")
-EXP = os.path.join(VERIF, "build", "expanded")
+EXP = os.environ.get("GEN_DERIVE_EXP", os.path.join(VERIF, "build", "expanded"))
+UNIT = os.environ.get("GEN_DERIVE_UNIT", "derive16")          # development runs write another unit directory ...
+WRITE_WIT = os.environ.get("GEN_DERIVE_NO_WIT", "") == ""      # ... and leave the stand-in's table alone
+MISSING_FMT = "missing field: {0}"                              # what `format!("missing field: {}", key)` expands to
+PARSING_FMT = "parsing field {0}: {1}"
 
 # (source file, crate (= expanded file stem), module path inside the crate)
 SOURCES = [
@@ -27,6 +31,8 @@ SOURCES = [
     ("debian-copyright/src/lossy.rs", "debian-copyright", ["lossy"]),
     ("dep3/src/lossy.rs", "dep3", ["lossy"]),
     ("apt-sources/src/lib.rs", "apt-sources", []),
+    # verification-only: one struct with every field shape the macros distinguish (see tools/shapes/src/lib.rs)
+    (os.path.join(VERIF, "tools", "shapes", "src", "lib.rs"), "vshapes", []),
 ]
 NATIVE = {"String", "u8", "u16", "u32", "u64", "usize", "bool"}
 
@@ -140,18 +146,19 @@ SAMPLE_BY_DE = {
     "deserialize_package_list": "foo deb utils optional arch=any", "deserialize_binaries": "foo bar", "deserialize_date": "2020-01-02",
     "deserialize_origin": "upstream, https://x.example/1", "deserialize_env": "LANG=\"C\"", "deserialize_version": "1.0-1",
     "deserialize_components": "main contrib", "deserialize_architectures": "amd64 i386",
+    "de_tag": "<t>", "de_words": "w1 w2", "de_flag": "yes", "de_hex": "0x1f", "de_dec": "7",
 }
 SAMPLE_BY_TYPE = {
     "String": "some text", "bool": "true", "u32": "12", "usize": "12", "u64": "12",
     "Relations": "a (>= 1), b | c", "debversion::Version": "1:2.0-1", "url::Url": "https://example.org/x", "Url": "https://example.org/x",
     "Priority": "optional", "crate::fields::Priority": "optional", "crate::fields::MultiArch": "same", "crate::vcs::ParsedVcs": "https://x.example/r.git -b main",
     "YesNoForce": "force", "Signature": "/usr/share/keyrings/k.gpg", "License": "GPL-2+", "Forwarded": "not-needed", "AppliedUpstream": "1.2",
-    "Vec<String>": "a b", "chrono::NaiveDate": "2020-01-02", "PathBuf": "/a/b",
+    "Vec<String>": "a b", "chrono::NaiveDate": "2020-01-02", "PathBuf": "/a/b", "Level": "high",
 }
 TYPE_PATH = {
     ("debian-control", ("lossy", "control")): "debian_control::lossy", ("debian-control", ("lossy", "apt")): "debian_control::lossy::apt",
     ("debian-control", ("lossy", "buildinfo")): "debian_control::lossy::buildinfo", ("debian-control", ("lossy", "ftpmaster")): "debian_control::lossy::ftpmaster",
-    ("debian-copyright", ("lossy",)): "debian_copyright::lossy", ("dep3", ("lossy",)): "dep3::lossy", ("apt-sources", ()): "apt_sources",
+    ("debian-copyright", ("lossy",)): "debian_copyright::lossy", ("dep3", ("lossy",)): "dep3::lossy", ("apt-sources", ()): "apt_sources", ("vshapes", ()): "vshapes",
 }
 
 
@@ -208,6 +215,8 @@ def main():
     type_map = {}
     opaque = {}        # verus name -> original type
     ser_specs = {}     # spec fn name -> value type (verus)
+    de_specs = {}      # custom deserializer -> value type (verus)
+    parse_types = set()  # types read with FromStr
     spec = ["// GENERATED by tools/gen_derive.py from the struct definitions in %s - do not edit" % REPO, ""]
     body = []
     vspec = ["// GENERATED by tools/gen_derive.py - do not edit", ""]
@@ -221,6 +230,7 @@ def main():
         n = len(fields)
         uses = []
         arms = []
+        from_ok, from_err, rt_hyp = [], [], []
         for i, (ident, fty, key, ser, de) in enumerate(fields):
             leaf, optional = leaf_type(fty)
             if leaf not in NATIVE and not re.match(r"Vec\s*<\s*String\s*>$", leaf):
@@ -239,6 +249,30 @@ def main():
                 val = lambda e, sfn=sfn: "%s(%s)" % (sfn, e)
             else:
                 val = lambda e: "%s.display_spec()" % e
+            # ---- reading side (FromDeb822): the relation between a field text and the value it is read as
+            if de:
+                dfn = "de_%s_%s" % (ident_of(crate + "_" + "_".join(modpath)).lower(), de)
+                if dfn in de_specs and de_specs[dfn] != vty:
+                    dfn = dfn + "_" + ident_of(vty)
+                de_specs[dfn] = vty
+                alias = "use super::stub_%s as %s;" % (dfn, de)
+                if alias not in uses:
+                    uses.append(alias)
+                relf = lambda s_, v_, dfn=dfn: "%s_rel(%s, %s)" % (dfn, s_, v_)
+                errf = lambda s_, dfn=dfn: "%s_err(%s)" % (dfn, s_)
+            else:
+                parse_types.add(vty)
+                relf = lambda s_, v_, vty=vty: "<%s as VxFromStr>::parse_rel(%s, %s)" % (vty, s_, v_)
+                errf = lambda s_, vty=vty: "<%s as VxFromStr>::parse_err(%s)" % (vty, s_)
+            k_ = rust_str(key)
+            if optional:
+                from_ok.append("(match list_get(l, %s@) { Some(s) => x.%s is Some && %s, None => x.%s is None })" % (k_, ident, relf("s", "x.%s->Some_0" % ident), ident))
+                from_err.append("(match list_get(l, %s@) { Some(s) => %s && names_field(e, %s@, %s@), None => false })" % (k_, errf("s"), rust_str(PARSING_FMT), k_))
+                rt_hyp.append("(x.%s is Some ==> !%s && forall|w: %s| #[trigger] %s ==> w == x.%s->Some_0)" % (ident, errf(val("x.%s->Some_0" % ident)), vty, relf(val("x.%s->Some_0" % ident), "w"), ident))
+            else:
+                from_ok.append("(match list_get(l, %s@) { Some(s) => %s, None => false })" % (k_, relf("s", "x.%s" % ident)))
+                from_err.append("(match list_get(l, %s@) { Some(s) => %s && names_field(e, %s@, %s@), None => e == fmt_msg1(%s@, %s@) })" % (k_, errf("s"), rust_str(PARSING_FMT), k_, rust_str(MISSING_FMT), k_))
+                rt_hyp.append("(!%s && forall|w: %s| #[trigger] %s ==> w == x.%s)" % (errf(val("x.%s" % ident)), vty, relf(val("x.%s" % ident), "w"), ident))
             if optional:
                 op = "opt_op(%s@, match x.%s { Some(v) => Some(%s), None => None::<Seq<char>> })" % (rust_str(key), ident, val("v"))
             else:
@@ -308,6 +342,41 @@ def main():
         body.append("    assert forall|i: int| 0 <= i < %d implies list_get(apply_n(l, f, %d), op_key(#[trigger] op_%s(x, i))) == (match op_%s(x, i) { Op::Set(_, v) => Some(v), Op::Remove(_) => None::<Seq<char>> }) by { assert(f(i) == op_%s(x, i)); }" % (n, n, uid, uid, uid))
         body.append("    assert forall|i: int| 0 <= i < %d implies list_get(present_n(f, %d), op_key(#[trigger] op_%s(x, i))) == (match op_%s(x, i) { Op::Set(_, v) => Some(v), Op::Remove(_) => None::<Seq<char>> }) by { assert(f(i) == op_%s(x, i)); }" % (n, n, uid, uid, uid))
         body.append("}")
+        if has_from:
+            body.append("/// what C16 says `%s::from_paragraph` returns: every field read from its configured name with its deserialiser" % name)
+            body.append("pub open spec fn from_ok_%s(l: Seq<Pair>, x: %s) -> bool {" % (uid, ty))
+            body.append("    " + "\n    && ".join(from_ok))
+            body.append("}")
+            body.append("/// ... and what an error means: a mandatory field is missing or a value is rejected, and the message names that field")
+            body.append("pub open spec fn from_err_%s(l: Seq<Pair>, e: Seq<char>) -> bool {" % uid)
+            body.append("    " + "\n    || ".join(from_err))
+            body.append("}")
+            body.append("/// HYPOTHESIS of the round trip: on this value's fields every (de)serialiser pair is inverse (not provable here: the")
+            body.append("/// Display / FromStr / custom functions of the field types are outside the unit; the bounded stand-in samples them)")
+            body.append("pub open spec fn rt_hyp_%s(x: %s) -> bool {" % (uid, ty))
+            body.append("    " + "\n    && ".join(rt_hyp))
+            body.append("}")
+            body.append("/// C16 round trip for `%s`, over the contracts of to_paragraph / update_paragraph and from_paragraph: reading a fresh" % name)
+            body.append("/// paragraph made from x, or any paragraph updated from x, returns Ok(x)")
+            body.append("pub proof fn theorem_rt_%s(x: %s, l0: Seq<Pair>, l: Seq<Pair>, r: Result<%s, String>)" % (uid, ty, ty))
+            body.append("    requires")
+            body.append("        l == pres_%s(x) || l == upd_%s(x, l0)," % (uid, uid))
+            body.append("        rt_hyp_%s(x)," % uid)
+            body.append("        match r { Ok(y) => from_ok_%s(l, y), Err(e) => from_err_%s(l, e@) }," % (uid, uid))
+            body.append("    ensures r == Ok::<%s, String>(x)," % ty)
+            body.append("{")
+            body.append("    theorem_%s(x, l0);" % uid)
+            for i, (ident, fty, key, ser, de) in enumerate(fields):
+                body.append("    assert(op_key(op_%s(x, %d)) == %s@);" % (uid, i, rust_str(key)))
+            body.append("    match r {")
+            body.append("        Ok(y) => {")
+            for i, (ident, fty, key, ser, de) in enumerate(fields):
+                body.append("            assert(y.%s == x.%s);" % (ident, ident))
+            body.append("            assert(y == x);")
+            body.append("        }")
+            body.append("        Err(e) => { assert(false); }")
+            body.append("    }")
+            body.append("}")
         body.append("")
         sel = "%s/%simpl ToDeb822Paragraph<P> for %s" % (mod, modsel, name)
         vspec += [
@@ -351,8 +420,18 @@ def main():
                 "    proof { assert(para@ == l%d); }" % (i + 1),
             ]
         vspec.append("")
-        sources.append({"file": os.path.join(EXP, crate + ".rs"), "mod": mod, "uses": uses,
-                        "items": ["%s%s" % (modsel, name), "%simpl ToDeb822Paragraph for %s" % (modsel, name)]})
+        items = ["%s%s" % (modsel, name), "%simpl ToDeb822Paragraph for %s" % (modsel, name)]
+        if has_from:
+            items.append("%simpl FromDeb822Paragraph for %s" % (modsel, name))
+            vspec += [
+                "@item %s/%simpl FromDeb822Paragraph<P> for %s::from_paragraph" % (mod, modsel, name),
+                "@spec",
+                "    // Ok: every field read from its configured name with its deserialiser (absent optional field = None);",
+                "    // Err: a mandatory field is missing or a value is rejected, and the message names that field",
+                "    ensures match r { Ok(x) => from_ok_%s(para@, x), Err(e) => from_err_%s(para@, e@) }," % (uid, uid),
+                "",
+            ]
+        sources.append({"file": os.path.join(EXP, crate + ".rs"), "mod": mod, "uses": uses, "items": items})
         cover.append({"struct": name, "file": rel, "fields": n, "from_deb822": has_from,
                       "custom_serializers": sorted(set(f[3] for f in fields if f[3]))})
 
@@ -366,6 +445,25 @@ def main():
         trusted.append("impl VxDisplay for %s { open spec fn display_spec(&self) -> Seq<char> { disp_%s(*self) } }" % (vn, vn))
     trusted.append("pub uninterp spec fn disp_bool(v: bool) -> Seq<char>;")
     trusted.append("impl VxDisplay for bool { open spec fn display_spec(&self) -> Seq<char> { disp_bool(*self) } }")
+    for vty in sorted(parse_types):
+        if not vty.startswith("VxT_"):
+            continue
+        trusted.append("/// `%s: FromStr`: an uninterpreted relation between a text and the value it is read as, and the texts it rejects" % opaque[vty])
+        trusted.append("pub uninterp spec fn parse_rel_%s(s: Seq<char>, v: %s) -> bool;" % (vty, vty))
+        trusted.append("pub uninterp spec fn parse_err_%s(s: Seq<char>) -> bool;" % vty)
+        trusted.append("impl VxFromStr for %s {" % vty)
+        trusted.append("    type VxErr = VxOpaqueErr;")
+        trusted.append("    open spec fn parse_rel(s: Seq<char>, v: %s) -> bool { parse_rel_%s(s, v) }" % (vty, vty))
+        trusted.append("    open spec fn parse_err(s: Seq<char>) -> bool { parse_err_%s(s) }" % vty)
+        trusted.append("    #[verifier::external_body] fn vx_from_str(s: &str) -> (r: Result<%s, VxOpaqueErr>) { unimplemented!() }" % vty)
+        trusted.append("}")
+    for dfn, vty in sorted(de_specs.items()):
+        trusted.append("/// custom deserializer: an uninterpreted relation between the field text and the value, and the texts it rejects")
+        trusted.append("pub uninterp spec fn %s_rel(s: Seq<char>, v: %s) -> bool;" % (dfn, vty))
+        trusted.append("pub uninterp spec fn %s_err(s: Seq<char>) -> bool;" % dfn)
+        trusted.append("#[verifier::external_body] pub fn stub_%s(s: &String) -> (r: Result<%s, VxOpaqueErr>)" % (dfn, vty))
+        trusted.append("    ensures match r { Ok(v) => %s_rel(s@, v) && !%s_err(s@), Err(_) => %s_err(s@) }" % (dfn, dfn, dfn))
+        trusted.append("{ unimplemented!() }")
     for sfn, vty in sorted(ser_specs.items()):
         trusted.append("/// custom serializer: an uninterpreted function of the field value; ASSUMED deterministic")
         trusted.append("pub uninterp spec fn %s(v: %s) -> Seq<char>;" % (sfn, vty))
@@ -373,7 +471,7 @@ def main():
     spec += body
 
     unit = {
-        "name": "derive16",
+        "name": UNIT,
         "generated_by": "tools/gen_derive.py (rewritten on every run from /repo)",
         "prelude": ["base.rs", "str_model.rs", "fmt_model.rs", "int_model.rs", "list_model.rs", "derive_model.rs"],
         "spec": ["ops_spec.rs", "gen_trusted.rs", "gen_spec.rs"],
@@ -381,21 +479,23 @@ def main():
         "smt_options": ["smt.case_split=0"],
         "preamble": ["pub mod deb822_lossless { pub mod convert { pub use crate::Deb822LikeParagraph; } }"],
         "method_map": {"to_string": "vx_to_string:&"},
-        "call_map": {"ToString::to_string": "vx_to_string"},
+        "call_map": {"ToString::to_string": "vx_to_string", "std::str::FromStr::from_str": "vx_parse_string"},
+        "derive_from": True,
         "type_map": dict(sorted(type_map.items())),
         "chain_map": [{"chain": ".into_iter().collect()", "fn": "vx_collect_para"}],
         "sources": sources,
         "contracts": ["gen.vspec"],
         "rlimit": 200,
     }
-    out = os.path.join(VERIF, "units", "derive16")
+    out = os.path.join(VERIF, "units", UNIT)
     os.makedirs(out, exist_ok=True)
     json.dump(unit, open(os.path.join(out, "unit.json"), "w"), indent=1)
     open(os.path.join(out, "gen_spec.rs"), "w").write("\n".join(spec) + "\n")
     open(os.path.join(out, "gen_trusted.rs"), "w").write("\n".join(trusted) + "\n")
     open(os.path.join(out, "gen.vspec"), "w").write("\n".join(vspec) + "\n")
     json.dump({"structs": cover, "fields_total": sum(c["fields"] for c in cover)}, open(os.path.join(out, "coverage.json"), "w"), indent=1)
-    open(os.path.join(VERIF, "tools", "witness", "src", "gen_c16.rs"), "w").write(harness_table(structs))
+    if WRITE_WIT:
+        open(os.path.join(VERIF, "tools", "witness", "src", "gen_c16.rs"), "w").write(harness_table(structs))
     print("gen_derive: %d structs, %d fields" % (len(cover), sum(c["fields"] for c in cover)))
 
 
